@@ -48,9 +48,10 @@ type Storage struct {
 	mu        sync.Mutex
 	byGoid    map[uint64]int
 	pending   map[int]*Pending
-	open      bool // pass everything through (teardown)
-	HonourCtx bool // refuse every call whose context is already done, as a networked backend does
-	Released  int  // number of gated calls released so far
+	open      bool  // pass everything through (teardown)
+	HonourCtx bool  // refuse every call whose context is already done, as a networked backend does
+	InjectErr error // what an injected failure returns (nil: ErrInjected)
+	Released  int   // number of gated calls released so far
 	// Observe, if set, is called with the result of every forwarded call of a registered worker.
 	Observe func(worker int, op, key string, err error)
 }
@@ -128,6 +129,13 @@ func (g *Storage) observe(op, key string, err error) {
 	}
 }
 
+func (g *Storage) injected() error {
+	if g.InjectErr != nil {
+		return g.InjectErr
+	}
+	return ErrInjected
+}
+
 // Park parks the calling goroutine, if it is a registered worker, like a storage call named op: it shows up as the
 // worker's pending call and continues when the scheduler releases it. For schedule points that are not storage calls.
 func (g *Storage) Park(op, key string) Outcome { return g.enter(op, key) }
@@ -152,16 +160,16 @@ func (g *Storage) Create(ctx context.Context, r kvs.Record) (string, error) {
 	}
 	switch g.enter("create", r.Key) {
 	case RequestLost:
-		return "", ErrInjected
+		return "", g.injected()
 	case ReplyLost:
 		_, err := g.Inner.Create(ctx, r)
 		g.observe("create", r.Key, err)
-		return "", ErrInjected
+		return "", g.injected()
 	case Applied:
 		v, err := g.Inner.Create(ctx, r)
 		g.observe("create", r.Key, err)
 		if g.enter("reply:create", r.Key) != OK {
-			return "", ErrInjected
+			return "", g.injected()
 		}
 		return v, err
 	}
@@ -176,16 +184,16 @@ func (g *Storage) Delete(ctx context.Context, key string) error {
 	}
 	switch g.enter("delete", key) {
 	case RequestLost:
-		return ErrInjected
+		return g.injected()
 	case ReplyLost:
 		err := g.Inner.Delete(ctx, key)
 		g.observe("delete", key, err)
-		return ErrInjected
+		return g.injected()
 	case Applied:
 		err := g.Inner.Delete(ctx, key)
 		g.observe("delete", key, err)
 		if g.enter("reply:delete", key) != OK {
-			return ErrInjected
+			return g.injected()
 		}
 		return err
 	}
@@ -197,12 +205,12 @@ func (g *Storage) Delete(ctx context.Context, key string) error {
 func (g *Storage) WaitForVersionChange(ctx context.Context, key, ver string) error {
 	switch g.enter("wait", key) {
 	case RequestLost:
-		return ErrInjected
+		return g.injected()
 	case ReplyLost:
 		g.observe("wait-enter", key, nil)
 		err := g.Inner.WaitForVersionChange(ctx, key, ver)
 		g.observe("wait", key, err)
-		return ErrInjected
+		return g.injected()
 	}
 	g.observe("wait-enter", key, nil)
 	err := g.Inner.WaitForVersionChange(ctx, key, ver)
@@ -215,14 +223,14 @@ func (g *Storage) Get(ctx context.Context, key string) (kvs.Record, error) {
 		return kvs.Record{}, ctx.Err()
 	}
 	if g.enter("get", key) != OK {
-		return kvs.Record{}, ErrInjected
+		return kvs.Record{}, g.injected()
 	}
 	return g.Inner.Get(ctx, key)
 }
 
 func (g *Storage) GetMany(ctx context.Context, keys ...string) ([]*kvs.Record, error) {
 	if g.enter("getmany", "") != OK {
-		return nil, ErrInjected
+		return nil, g.injected()
 	}
 	return g.Inner.GetMany(ctx, keys...)
 }
@@ -232,14 +240,14 @@ func (g *Storage) Put(ctx context.Context, r kvs.Record) (kvs.Record, error) {
 		return kvs.Record{}, ctx.Err()
 	}
 	if g.enter("put", r.Key) != OK {
-		return kvs.Record{}, ErrInjected
+		return kvs.Record{}, g.injected()
 	}
 	return g.Inner.Put(ctx, r)
 }
 
 func (g *Storage) PutMany(ctx context.Context, rs []kvs.Record) error {
 	if g.enter("putmany", "") != OK {
-		return ErrInjected
+		return g.injected()
 	}
 	return g.Inner.PutMany(ctx, rs)
 }
@@ -249,14 +257,14 @@ func (g *Storage) CasByVersion(ctx context.Context, r kvs.Record) (kvs.Record, e
 		return kvs.Record{}, ctx.Err()
 	}
 	if g.enter("cas", r.Key) != OK {
-		return kvs.Record{}, ErrInjected
+		return kvs.Record{}, g.injected()
 	}
 	return g.Inner.CasByVersion(ctx, r)
 }
 
 func (g *Storage) ListKeys(ctx context.Context, pattern string) (iterable.Iterator[string], error) {
 	if g.enter("list", pattern) != OK {
-		return nil, ErrInjected
+		return nil, g.injected()
 	}
 	return g.Inner.ListKeys(ctx, pattern)
 }
